@@ -110,6 +110,7 @@ def bad (id : String) (why : String) : String :=
 /-! ### The endpoints of the echo server -/
 
 structure Ep where
+  method : String := "GET"
   route : List RSeg
   pathShape : Option Nat := none
   queryShape : Option Nat := none
@@ -122,15 +123,15 @@ def endpoint : String → Option Ep
   | "p3" => some { route := [.lit (b "path"), .var (b "id"), .var (b "name"), .var (b "flag")], pathShape := some 12 }
   | "wild" => some { route := [.lit (b "wild"), .var (b "id"), .rest (b "rest")], pathShape := some 7 }
   | "q6" => some { route := [.lit (b "query")], queryShape := some 13 }
-  | "json" => some { route := [.lit (b "json")], body := some (14, .json) }
-  | "form" => some { route := [.lit (b "form")], body := some (15, .urlEncoded) }
-  | "j2" => some { route := [.lit (b "j2")], body := some (16, .json) }
-  | "raw" => some { route := [.lit (b "raw")], kind := "raw" }
-  | "stream" => some { route := [.lit (b "stream")], kind := "stream" }
-  | "rawreq" => some { route := [.lit (b "rawreq")], kind := "rawreq" }
-  | "mp" => some { route := [.lit (b "multipart")], kind := "mp" }
+  | "json" => some { method := "POST", route := [.lit (b "json")], body := some (14, .json) }
+  | "form" => some { method := "POST", route := [.lit (b "form")], body := some (15, .urlEncoded) }
+  | "j2" => some { method := "POST", route := [.lit (b "j2")], body := some (16, .json) }
+  | "raw" => some { method := "PUT", route := [.lit (b "raw")], kind := "raw" }
+  | "stream" => some { method := "PUT", route := [.lit (b "stream")], kind := "stream" }
+  | "rawreq" => some { method := "POST", route := [.lit (b "rawreq")], kind := "rawreq" }
+  | "mp" => some { method := "POST", route := [.lit (b "multipart")], kind := "mp" }
   | "all" =>
-    some { route := [.lit (b "all"), .var (b "nonce")], pathShape := some 17, queryShape := some 18, body := some (19, .json) }
+    some { method := "POST", route := [.lit (b "all"), .var (b "nonce")], pathShape := some 17, queryShape := some 18, body := some (19, .json) }
   | _ => none
 
 def bodyCap : Nat := 4096
@@ -210,8 +211,8 @@ structure SvLine where
 
 def parseSv (inp impl : List String) : Option SvLine :=
   match inp, impl with
-  | [_, id, ep, method, target, ct, fr, wire, extra, sent, nonce, port],
-    [status, ev, em, eu, eh, ep', delta, errb, fol] => do
+  | [_, id, ep, method, target, ct, fr, wire, extra, sent, nonce],
+    [status, ev, em, eu, eh, port, ep', delta, errb, fol] => do
     let target ← unhexB target
     let ct ← if ct = "none" then some none else (unhexB ct).map some
     let framing ← parseFraming fr
@@ -251,6 +252,8 @@ def verdict (l : SvLine) (e : Ep) (payload : Bytes) (strict : Bool) : Verdict :=
   | .badPath => .refused 400
   | .noRoute => .refused 404
   | .ok vars =>
+    -- the route exists but not for this method (one endpoint per path here)
+    if l.method != e.method then .refused 405 else
     -- path extractor
     let pathR : Except Unit (Option String) :=
       match e.pathShape.bind shape with
